@@ -115,6 +115,58 @@ func c07HasLarge(cs *c07Case) bool {
 	return false
 }
 
+func c07WithinRounding(cs *c07Case, model, actual []c07MSample) bool {
+	sum := func(ss []c07MSample) map[c07Key][]int64 {
+		w := map[c07Key][]int64{}
+		for _, s := range ss {
+			if w[s.Key] == nil {
+				w[s.Key] = make([]int64, len(s.Vals))
+			}
+			for j, v := range s.Vals {
+				if j < len(w[s.Key]) {
+					w[s.Key][j] += v
+				}
+			}
+		}
+		return w
+	}
+	cnt := map[c07Key]int64{}
+	for _, p := range cs.Sources {
+		for _, s := range p.Samples {
+			cnt[c07Key{Stack: c07StackStr(s.Stack), Tag: s.Tag}]++
+		}
+	}
+	wm, wa := sum(model), sum(actual)
+	for k := range wa {
+		if _, ok := wm[k]; !ok {
+			wm[k] = make([]int64, len(wa[k]))
+		}
+	}
+	for k, mv := range wm {
+		av := wa[k]
+		if av == nil {
+			av = make([]int64, len(mv))
+		}
+		if len(av) != len(mv) {
+			return false
+		}
+		tol := cnt[c07Key{Stack: k.Stack, Tag: k.Tag}]
+		if k.Base {
+			tol = 0
+		}
+		for j := range mv {
+			d := mv[j] - av[j]
+			if d < 0 {
+				d = -d
+			}
+			if d > tol {
+				return false
+			}
+		}
+	}
+	return true
+}
+
 const c07SigScaleNDrop = "C07/scaleN/drops-sample-nonzero-only-in-unscaled-columns"
 
 func c07PctOK(got string, value, total int64) bool {
@@ -417,6 +469,12 @@ func (run *c07Run) checkCLI(cs *c07Case, o *c07CLIOut) bool {
 	// ---- model ----
 	if c07HasLarge(cs) {
 		return nt
+	}
+	if cm != ca && cs.Normalize && !pinnedExplains && c07WithinRounding(cs, mp.Samples, actM) {
+		// -normalize rounds once per sample; where equal stacks are merged before or after the
+		// rounding is not promised, so the comparison allows half a unit per source sample of a stack
+		c.Res.Hit("normalize-within-rounding")
+		cm = ca
 	}
 	if cm != ca {
 		switch {
